@@ -22,6 +22,21 @@ package gaussian
 //@   ensures [runnable] result.1 == nil ==> result.0 != nil && result.0.Trigger != nil && result.0.DryRun != nil
 //@   ensures [rejected] result.1 != nil ==> result.0 == nil
 //@
+//@ // C14 (rates mean what they spell): N/<duration> is N per that duration, so the per-second figure is N divided by the
+//@ // duration in seconds (not by a whole number of seconds). Only the structure is pinned down (the unit is converted with
+//@ // Duration.Seconds, i.e. as a fractional number of seconds): the quantitative statement is a non-linear float
+//@ // obligation that the solvers decide too slowly to be claimed.
+//@ ghost var GPcount int
+//@ ghost var GPunit int
+//@ func parseRateToTPS
+//@   props C14 C11
+//@   fp-inexact
+//@   ghost at entry : GPcount = 0 ; GPunit = 0
+//@   ghost after call rate.ParseRate : GPcount = ret0 ; GPunit = ret1
+//@   modifies GPcount, GPunit
+//@   assert before call (Duration).Seconds : [the-unit-is-taken-in-seconds] arg0 == GPunit
+//@   ensures [rejected] result.1 != nil ==> result.0 == 0.0 - 1.0
+//@
 //@ func NewCalculator
 //@   props C14
 //@   fp-abstract
